@@ -617,3 +617,17 @@ gmay! { #[kani::unwind(8)] fn c07_from_header_and_iter_lying_len5() {
     drop(arc);
     assert!(vrt::drops() == n + 1);
 } }
+
+// @h props=C14 fuc=HeaderSlice::partial_cmp note="partially ordered elements (f32 incl. NaN): the value orders as its header followed by its slice - a decided header is not undone by incomparable slices"
+gproof! { fn c14_headerslice_partial_cmp_f32_matches_tuple() {
+    let (h1, h2): (u8, u8) = (kani::any(), kani::any());
+    let (s1, s2): ([f32; 2], [f32; 2]) = (kani::any(), kani::any());
+    let l: usize = kani::any();
+    let x: HeaderSlice<HeaderWithLength<u8>, [f32; 2]> = HeaderSlice { header: HeaderWithLength::new(h1, l), slice: s1 };
+    let y: HeaderSlice<HeaderWithLength<u8>, [f32; 2]> = HeaderSlice { header: HeaderWithLength::new(h2, l), slice: s2 };
+    let want = (h1, s1).partial_cmp(&(h2, s2));
+    assert!(x.partial_cmp(&y) == want);
+    assert!((x < y) == (want == Some(core::cmp::Ordering::Less)) && (x >= y) == matches!(want, Some(core::cmp::Ordering::Greater) | Some(core::cmp::Ordering::Equal)));
+    let keep = Arc::new(0u8);
+    core::mem::forget(keep);
+} }
